@@ -81,7 +81,7 @@ def inBodyHtml (tag : Tag) : M ProcessResult := do
 
 /-! ### InHead -/
 
-/-- `should_attach_declarative_shadow` (mod.rs:1463) -/
+/-- `should_attach_declarative_shadow` (mod.rs:1465) -/
 def shouldAttachDeclarativeShadow (tag : Tag) : M Bool := do
   let loc ← appropriatePlaceForInsertion none
   let intendedParent := loc.nodes.1
@@ -679,18 +679,18 @@ def stepText (token : Token) : M ProcessResult := do
 
 /-! ### tables -/
 
-/-- `foster_parent_in_body` (mod.rs:1236) -/
+/-- `foster_parent_in_body` (mod.rs:1238) -/
 def fosterParentInBody (token : Token) : M ProcessResult := do
   modS fun s => { s with fosterParenting := true }
   let res ← stepInBody token
   modS fun s => { s with fosterParenting := false }
   pure res
 
-/-- `process_chars_in_table` (mod.rs:1245) -/
+/-- `process_chars_in_table` (mod.rs:1247) -/
 def processCharsInTable (token : Token) : M ProcessResult := do
   if ← currentNodeIn tableOuterChars then
     if !(← getS).pendingTableText.isEmpty then
-      panicAt "assert" "mod.rs:1248" "assert!(self.pending_table_text.borrow().is_empty())"
+      panicAt "assert" "mod.rs:1250" "assert!(self.pending_table_text.borrow().is_empty())"
     modS fun s => { s with origMode := some s.mode }
     pure (.reprocess .inTableText token)
   else
@@ -906,7 +906,7 @@ def stepInRow (token : Token) : M ProcessResult := do
     else if tag.isEnd ["tr"] then
       if ← inScopeNamed tableScope "tr" then
         popUntilCurrent tableRowContext
-        popTr "mod.rs:635"
+        popTr "mod.rs:637"
         setMode .inTableBody
       else
         let _ ← unexpected
@@ -914,14 +914,14 @@ def stepInRow (token : Token) : M ProcessResult := do
     else if tag.isStart ["caption", "col", "colgroup", "tbody", "tfoot", "thead", "tr"] || tag.isEnd ["table"] then
       if ← inScopeNamed tableScope "tr" then
         popUntilCurrent tableRowContext
-        popTr "mod.rs:635"
+        popTr "mod.rs:637"
         pure (.reprocess .inTableBody token)
       else unexpected
     else if tag.isEnd ["tbody", "tfoot", "thead"] then
       if ← inScopeNamedS tableScope tag.name then
         if ← inScopeNamed tableScope "tr" then
           popUntilCurrent tableRowContext
-          popTr "mod.rs:635"
+          popTr "mod.rs:637"
           pure (.reprocess .inTableBody token)
         else pure .done
       else unexpected
@@ -1110,7 +1110,7 @@ def step (mode : Mode) (token : Token) : M ProcessResult :=
 
 /-! ### foreign content -/
 
-/-- `unexpected_start_tag_in_foreign_content` (mod.rs:1874) -/
+/-- `unexpected_start_tag_in_foreign_content` (mod.rs:1876) -/
 def unexpectedStartTagInForeignContent (tag : Tag) : M ProcessResult := do
   let _ ← unexpected
   popToIntegrationPointLoop ((← getS).openElems.length + 1)
